@@ -10,6 +10,7 @@ import ClairModel.Model.GoBin
 import ClairModel.Model.Jar
 import ClairModel.Model.DistScan
 import ClairModel.Model.RhelRepo
+import ClairModel.Model.LangScan
 
 namespace Driver.C02
 open ClairModel.Bytes ClairModel.Rfc822 ClairModel
@@ -180,6 +181,27 @@ def repoAnswer (ws : List String) : String :=
     | .repos cs => let l := sortStrings (cs.map hexB); " ".intercalate (s!"ok {l.length}" :: l)
   | _, _ => "bad-op"
 
+def nodeAnswer (path kind name ver : String) : String :=
+  match toBytes path, toBytes name, toBytes ver with
+  | some p, some n, some v =>
+    if !LangScan.nodePick p then "absent"
+    else if kind != "ok" then "absent"
+    else
+      let norm := match Semver.parse (bytesToChars v) with
+        | none => "none"
+        | some sv => let pv := Semver.project sv; "semver:" ++ ".".intercalate ((pv.v.drop 1).take 3 |>.map toString)
+      " ".intercalate ["ok", hexB n, hexB v, norm]
+  | _, _, _ => "bad-op"
+
+def gemAnswer (path file : String) : String :=
+  match toBytes path, toBytes file with
+  | some p, some f =>
+    if !LangScan.gemPick p then "absent"
+    else match LangScan.gemspec f with
+      | none => "absent"
+      | some g => " ".intercalate ["ok", hexB g.name, hexB g.version]
+  | _, _ => "bad-op"
+
 def showErr : Err → String
   | .ok => "nil"
   | .eof => "eof"
@@ -244,6 +266,8 @@ def answer (l : String) : String :=
       | some a, some b => showDistRes (DistScan.ubuntuScan a b)
       | _, _ => "bad-op"
   | "rhelrepo" :: ws => repoAnswer ws
+  | ["node", p, k, n, v] => nodeAnswer p k n v
+  | ["gem", p, f] => gemAnswer p f
   | ["reset"] => "ok"
   | _ => "bad-op"
 
